@@ -499,11 +499,25 @@ def _group_heavy(rng: random.Random, vars_: list) -> list:
     return out
 
 
+def _rewrite_op(e, old: int, new: int):
+    if not isinstance(e, tuple):
+        return e
+    if e[0] == "o1" and e[1] == old:
+        return ("o1", new, _rewrite_op(e[2], old, new))
+    return tuple(_rewrite_op(x, old, new) if isinstance(x, tuple) else x for x in e)
+
+
 def gen_eqv(rng: random.Random, direct=False, faults=True, bad_rate=0.0, unlisted=False) -> tuple:
     variant = 1 if rng.random() < 0.4 else 0
     nP, nG, mem, roles, psit, gsit, own, k = gen_population(rng, unlisted, variant)
     fault_ids = [] if faults else None
     vars_ = rs.gen_vars(rng, rng.randint(3, 9), fault_ids=fault_ids, bad_rate=bad_rate)
+    if variant:
+        # the generic generator's unique role is role 2 of the plain table; with sub-roles the head is flattened role 3
+        # (value_from_person refuses a role that is not unique)
+        _, head, _, _ = _role_table(variant)
+        for v in vars_:
+            v.formulas = [(st, _rewrite_op(f, 20 + rs.UNIQUE_ROLE, 20 + head)) for st, f in v.formulas]
     extra = _group_heavy(rng, vars_) if rng.random() < 0.6 else []
     extra_r = _role_heavy(rng, vars_, variant) if rng.random() < 0.6 else []
     extra_m = _reduce_heavy(rng, vars_, variant) if rng.random() < 0.6 else []
@@ -648,6 +662,32 @@ def corpus_base():
     sels3 = [("merge", [1, 2], [0, 3]), ("merge", [0, 3], [1, 2]), ("merge", [0], [2]), ("merge", [2], [3]),
              ("permute", [2, 3, 0, 1], [3, 1, 0, 2]), ("permuted-part", [3, 0], [2, 1])]
     out.append(_case(EqvCase(c3, ["b1", "a1", "a2", "b2"], ["hA", "hB", "?", "?"], sels3, own={2: 0, 3: 2}), ("corpus", "unlisted-persons")))
+    # reductions, an empty declared household listed LAST right after a household whose last-stored member is decisive
+    # (holds the max, the min, the only zero); situation A = households hA (two members) and hV (vacant), situation B = hB
+    inc = rs.Var(entity=0, vtype="int", unit="month", dflt=2)
+    hi = rs.Var(entity=1, vtype="int", unit="month", dflt=0, formulas=[(1, ("o1", 59, ("v", 0, "same", False)))])
+    lo = rs.Var(entity=1, vtype="int", unit="month", dflt=0, formulas=[(1, ("o1", 69, ("o1", 0, ("v", 0, "same", False))))])
+    al = rs.Var(entity=1, vtype="bool", unit="month", dflt=0, formulas=[(1, ("o1", 79, ("o2", 4, ("v", 0, "same", False), ("c", 30))))])
+    hr_ = rs.Var(entity=1, vtype="int", unit="month", dflt=0,
+                 formulas=[(1, ("o2", 0, ("o1", 51, ("v", 0, "same", False)), ("o2", 0, ("o1", 62, ("v", 0, "same", False)), ("o1", 70, ("v", 0, "same", False)))))])
+    back = rs.Var(entity=0, vtype="int", unit="month", dflt=0, formulas=[(1, ("o2", 1, ("o1", 2, ("v", 1, "same", False)), ("v", 0, "same", False)))])
+    c4 = rs.SysCase(3, 3, [0, 1, 1], 1, [inc, hi, lo, al, hr_, back], [(0, M[1], [5, 7, 30])],
+                    [("calc", 1, M[1]), ("calc", 2, M[1]), ("calc", 3, M[1]), ("calc", 4, M[1]), ("calc", 5, M[1]), ("calc", 1, M[0])],
+                    roles=[2, 0, 1])
+    sels4 = [("merge", [1, 2], [1, 2]), ("merge", [0], [0]), ("permute", [2, 0, 1], [2, 1, 0]), ("permuted-part", [2, 1], [2, 1])]
+    for direct in (False, True):
+        out.append(_case(EqvCase(c4, ["b1", "a1", "a2"], ["hB", "hA", "hV"], sels4, direct=direct), ("corpus", "reductions", "empty-declared-household-last")))
+    # first role with sub-roles; situation B has NO household section (alone: the builder's default-group path; together with
+    # A: the left-out-person path): b1 holds the first flattened role (first_parent) either way
+    nfp = rs.Var(entity=1, vtype="int", unit="month", dflt=0,
+                 formulas=[(1, ("o2", 0, ("o1", 30, ("c", 0)), ("o1", 153, ("o1", 10, ("c", 1)))))])       # first parents: count + 3 * sum of ones
+    fpv = rs.Var(entity=1, vtype="int", unit="month", dflt=0, formulas=[(1, ("o1", 20, ("v", 0, "same", False)))])   # the first parent's value
+    mine = rs.Var(entity=0, vtype="int", unit="month", dflt=0,
+                  formulas=[(1, ("o2", 0, ("o1", 2, ("v", 1, "same", False)), ("o1", 2, ("o1", 32, ("c", 0)))))])
+    c5 = rs.SysCase(4, 3, [0, 1, 0, 2], 1, [inc, nfp, fpv, mine], [(0, M[1], [900, 10, 20, 30])],
+                    [("calc", 1, M[1]), ("calc", 2, M[1]), ("calc", 3, M[1])], roles=[0, 0, 2, 0], role_variant=1)
+    sels5 = [("merge", [0, 2], [0]), ("merge", [1, 3], [1, 2]), ("merge", [1], [1]), ("permute", [3, 2, 1, 0], [2, 0, 1])]
+    out.append(_case(EqvCase(c5, ["a1", "b1", "a2", "b2"], ["hA", "?", "?"], sels5, own={1: 1, 2: 3}), ("corpus", "situation-without-household-section")))
     # a selection that is not a situation
     out.append(_case(EqvCase(c, [f"p{i}" for i in range(5)], [f"h{g}" for g in range(3)], [("merge", [0, 2], [1]), ("open", [1, 3], [0, 2])]),
                      ("corpus", "open-selection")))
@@ -702,8 +742,13 @@ def enumerate_thorough():
                 formulas=[(1, ("o2", 1, ("o1", 2, ("v", 6, "same", False)), ("v", 0, "same", False)))])
     v8 = rs.Var(entity=1, vtype="int", unit="month", dflt=0,
                 formulas=[(1, ("o2", 0, ("o1", 10, ("v", 0, "same", False)), ("o2", 0, ("o1", 32, ("c", 0)), ("o1", 40, ("v", 0, "same", False)))))])
+    v9 = rs.Var(entity=1, vtype="int", unit="month", dflt=0,
+                formulas=[(1, ("o2", 0, ("o1", 59, ("v", 0, "same", False)), ("o1", 153, ("o1", 69, ("o1", 0, ("v", 0, "same", False))))))])   # max - 3 * max
+    v10 = rs.Var(entity=1, vtype="int", unit="month", dflt=0,
+                 formulas=[(1, ("o2", 0, ("o1", 79, ("o2", 4, ("v", 0, "same", False), ("c", 8))),
+                                ("o2", 0, ("o1", 50, ("v", 0, "same", False)), ("o1", 62, ("v", 0, "same", False)))))])
     reqs = [("calc", 2, M[1]), ("calc", 3, M[1]), ("calc", 4, M[1]), ("calc", 5, M[1]), ("calc", 2, M[0]), ("calc", 5, M[0]),
-            ("calc", 6, M[1]), ("calc", 7, M[1]), ("calc", 8, M[1])]
+            ("calc", 6, M[1]), ("calc", 7, M[1]), ("calc", 8, M[1]), ("calc", 9, M[1]), ("calc", 10, M[1])]
     out = []
     for nP in range(1, 5):
         for nG in range(1, 4):
@@ -712,7 +757,7 @@ def enumerate_thorough():
                 # the head of a household is its LAST member in storage order: over all membership maps the heads
                 # come in every order relative to their households
                 roles = [rs.UNIQUE_ROLE if i == max(k for k in range(nP) if mem[k] == mem[i]) else 0 for i in range(nP)]
-                c = rs.SysCase(nP, nG, mem, 1, [v0, v1, v2, v3, v4, v5, v6, v7, v8],
+                c = rs.SysCase(nP, nG, mem, 1, [v0, v1, v2, v3, v4, v5, v6, v7, v8, v9, v10],
                                [(0, M[1], [1, 2, 4, 8][:nP]), (1, M[1], [100, 200, 300][:nG])], reqs, roles=roles)
                 sels = []
                 for r in range(1, nG + 1):
@@ -744,7 +789,11 @@ PROP = Prop(
           "add/sub/min/max/comparisons/where/scaling/negation, sums over members, projections, period transforms and the ADD option, "
           "plus (60% each) variables built on purpose on the group operations and on the ROLE operations (value of the unique-role member "
           "= value_from_person, in household formulas and through the person.household projector chain, role-filtered sum, nb_persons(role), "
-          "any(role)); roles: 75% of the non-empty households have a head (unique role, max 1), up to two parents (max 2), plain members; "
+          "any(role)) and (60%) on the reductions max / min / all with and without role filter (0 / 0 / 1 for a household without "
+          "holder); roles: 75% of the non-empty households have a head (unique role, max 1), up to two parents (max 2), plain members; "
+          "in 40% of the systems the household entity's FIRST role has sub-roles (first_parent, second_parent; role indices = flattened "
+          "roles); 25% of the situations have a declared household without member, in every position of the merged population and (half of "
+          "those populations) LAST, right after a household with >= 2 members; "
           "injected faults (40% of the systems: armed, requested, disarmed, requested again) and a 0.6% stream of invalid reads; "
           "populations made of 2-3 unrelated situations of 1-4 persons in 1-3 households each (15%: plus a household without member), "
           "persons and households of the situations interleaved at random (70%), households only (15%) or concatenated (15%); inputs "
@@ -757,7 +806,9 @@ PROP = Prop(
           "are not situations (a kept household names a person that is not kept): refused by the builder, ERR in the model. "
           "30% of the builder cases list some persons in NO household (the builder appends a household of their own after the declared "
           "ones; its answers are matched by id) while declared households carry household-level inputs on variables with zero and non-zero "
-          "defaults ('rent' read back through the projection). The order-dependent operations (value_nth_person, first_person, get_rank) "
+          "defaults ('rent' read back through the projection), and 30% of their situations have NO household section at all (alone: the "
+          "builder's default-group path; merged with a situation that declares households: the left-out-person path), with role-dependent "
+          "variables (nb_persons(first role), role-filtered sum of ones) requested. The order-dependent operations (value_nth_person, first_person, get_rank) "
           "are not in the language: the permutation clause is false of them by definition. "
           "Non-trivial = the merged simulation and at least two parts returned values; distinct = distinct protocol lines."),
     assumptions=[
